@@ -74,10 +74,16 @@ func VerifC15Wire(writes int, level int) {
 		if flushEarly {
 			flush() // as ReverseProxy does for streaming / trailer-announcing backends: right after the header
 		}
+		// like ReverseProxy's copy loop: every chunk goes through one reused buffer
+		var chunk [8]byte
 		off := 0
 		for _, n := range sizes {
-			w.Write([]byte(verifPayload[off : off+n]))
+			copy(chunk[:], verifPayload[off:off+n])
+			w.Write(chunk[:n])
 			off += n
+		}
+		for i := range chunk {
+			chunk[i] = '#' // the buffer belongs to the caller again
 		}
 		if flushLate {
 			flush()
